@@ -51,7 +51,7 @@ type c04Case struct {
 	Manager     string         `json:"manager_host"`
 	S1          []int          `json:"s1"` // condition of h2..hn (manager's own host stays healthy)
 	S2          []int          `json:"s2"`
-	M2          int            `json:"master_s2"` // 0 ok, 1 unreachable from the manager, 2 down
+	M2          int            `json:"master_s2"`           // 0 ok, 1 unreachable from the manager, 2 down
 	Dev         *sim.Deviation `json:"deviation,omitempty"` // index relative to the start of the S2 iteration
 }
 
